@@ -253,19 +253,38 @@ func decJob(e encoded, want []byte, class string, chunking string, alt int, lean
 		if (e.codec == "lzma" || e.codec == "xz") && (status != "ok" || !bytes.Equal(got.Bytes(), want)) {
 			// Two known defects of std/lzma are keyed by their cause (see KNOWN_FINDINGS.txt): re-run the same
 			// stream without the triggering condition; only if it then decodes correctly is the cause confirmed.
-			rerun := func(o string) bool {
+			rerunStatus := func(o string) (bool, string, string) {
 				c2 := strings.Join(strings.Fields(fmt.Sprintf("run %s %s digest=0 maxout=268435456 %s", e.codec, o, hlib.Hex(e.data))), " ")
 				_, r2 := runCmd(d, c2)
-				if r2 == nil || r2.Status != "ok" {
-					return false
+				if r2 == nil {
+					return false, "run-failed", ""
+				}
+				if r2.Status != "ok" {
+					return false, r2.Status, r2.Trace
 				}
 				b, _ := hex.DecodeString(strings.TrimPrefix(r2.OutHex, "-"))
-				return bytes.Equal(b, want)
+				return bytes.Equal(b, want), "ok", r2.Trace
 			}
+			rerun := func(o string) bool { ok, _, _ := rerunStatus(o); return ok }
 			// lazy-workbuf: the fatal status must come WITHOUT any preceding `$short workbuf` (the decoder never asked),
-			// and the identical run (same chunking) with an up-front work buffer must decode correctly.
-			if strings.Contains(opts, "work=auto") && status == "#base:_bad_workbuf_length" && !strings.Contains(lastTrace, "short_workbuf") &&
-				rerun(strings.Replace(opts, "work=auto", "work="+bigWork, 1)) {
+			// the stream must decode correctly in one piece with an up-front work buffer, and — when the source was
+			// chunked — the same fatal status must also appear with the source in one piece (the cause is the lazy
+			// work buffer, not the chunking; the chunked run with an up-front buffer may meet the OTHER known defect).
+			lazyConfirmed := func() bool {
+				if !strings.Contains(opts, "work=auto") || status != "#base:_bad_workbuf_length" || strings.Contains(lastTrace, "short_workbuf") {
+					return false
+				}
+				one := dropSrcOpt(opts)
+				if !rerun(strings.Replace(one, "work=auto", "work="+bigWork, 1)) {
+					return false
+				}
+				if one != opts {
+					_, st2, tr2 := rerunStatus(one)
+					return st2 == "#base:_bad_workbuf_length" && !strings.Contains(tr2, "short_workbuf")
+				}
+				return true
+			}
+			if lazyConfirmed() {
 				cr.fails = append(cr.fails, hlib.Failure{Key: "decode:lzma-family:lazy-workbuf:bad-workbuf-length",
 					Desc: fmt.Sprintf("Wuffs %s (%s): a caller that sizes the work buffer from workbuf_len() and grows it on `$short workbuf` gets `#base: bad workbuf length` on a valid stream (%s, payload %s %d bytes): std/lzma writes output (LZMA2 uncompressed chunk / header split across reads) before it ever reports `$short workbuf`; the same stream decodes correctly with a large work buffer", e.codec, fl, e.setting, class, len(want)), Replay: replay})
 				cr.counts = append(cr.counts, "known:lazy-workbuf")
@@ -278,7 +297,7 @@ func decJob(e encoded, want []byte, class string, chunking string, alt int, lean
 			// copy (it is then never replaced: every match stays inside dst.history): a defect of
 			// suspension/resumption on a chunked source fails (b) and is reported under its own key.
 			if strings.Contains(opts, "src=") && !strings.HasPrefix(status, "crash") && !strings.HasPrefix(status, "io-contract") &&
-				rerun(dropSrcOpt(opts)) && rerun(oneDst(opts, len(want)+4096)) {
+				rerun(dropSrcOpt(upfront(opts))) && rerun(oneDst(upfront(opts), len(want)+4096)) {
 				cr.fails = append(cr.fails, hlib.Failure{Key: "decode:lzma-family:unflushed-dst-far-match",
 					Desc: fmt.Sprintf("Wuffs %s (%s) on a valid stream (%s, payload %s %d bytes) ends with %s / wrong bytes when the source arrives in chunks (%s): after a `$short read` the destination buffer still holds bytes of earlier calls, and a match reaching before the start of that buffer is fetched from the wrong place of the workbuf ring (std/lzma lacks the `transformed_history_count - dst.history_position()` correction that std/deflate has); the same stream decodes correctly when supplied in one piece", e.codec, fl, e.setting, class, len(want), status, chunking), Replay: replay})
 				cr.counts = append(cr.counts, "known:unflushed-dst-far-match")
@@ -430,6 +449,10 @@ func dropSrcOpt(opts string) string {
 	}
 	return strings.Join(out, " ")
 }
+
+// upfront: opts with the lazy work-buffer protocol replaced by an up-front buffer (the confirmation runs of one
+// known std/lzma defect must not meet the other one)
+func upfront(opts string) string { return strings.Replace(opts, "work=auto", "work="+bigWork, 1) }
 
 // oneDst: opts with the destination capacity replaced by one buffer of n bytes
 func oneDst(opts string, n int) string {
